@@ -552,7 +552,7 @@ func checkExactSymbolMatch(p *Prog, r *Report, rule string) int {
 				}
 				for _, g := range gs {
 					bo, isB := g.Cond.(*ssa.BinOp)
-					if !isB || bo.Op != token.EQL || !g.Pol {
+					if !isB || !((bo.Op == token.EQL && g.Pol) || (bo.Op == token.NEQ && !g.Pol)) {
 						continue
 					}
 					for _, side := range []ssa.Value{bo.X, bo.Y} {
